@@ -375,8 +375,22 @@ def other_entries():
         res = w['idp'].parse_logout_request(as_text(data), world.SOAP)
         return None if res is None or res.message is None else res.message
 
+    nameid_doc = '<saml:NameID xmlns:saml="%s" Format="%s">subject-0001</saml:NameID>' % (build.SAML, build.TRANSIENT)
+
+    def sp_encrypted_id(data):
+        # the document exists only as cipher text: the subject identifier of an otherwise valid, signed response is an EncryptedID whose plaintext is `data`
+        # (EncryptedData without a Type attribute: the decryptor returns the octets as they are)
+        r3, a3 = build.standard(now)
+        a3['subject']['raw_id'] = '<saml:EncryptedID>%s</saml:EncryptedID>' % build.encrypt_raw(data, 2, typ=None, enc_id='EDID')
+        doc = build.render(r3, [a3], sign_response=1)
+        res = w['sp'].parse_authn_request_response(base64.b64encode(doc.encode('utf-8')).decode(), world.POST, {'id-req-1': '/'})
+        if res is None or res.name_id is None:
+            return None
+        return (res.name_id.text, res.ava)
+
     sec = w['sp'].sec
     return {
+        'decrypted EncryptedID content': (nameid_doc, sp_encrypted_id),
         'extension_element_from_string': (resp, lambda d: extension_element_from_string(d)),
         'soap.parse_soap_enveloped_saml_thingy': (env_logout, lambda d: soap.parse_soap_enveloped_saml_thingy(d, ['{%s}LogoutRequest' % build.SAMLP])),
         'soap.parse_soap_enveloped_saml_logout_request': (env_logout, lambda d: soap.parse_soap_enveloped_saml_logout_request(d)),
@@ -401,7 +415,7 @@ def other_entries():
     }
 
 
-OTHER_NAMES = ['extension_element_from_string', 'soap.parse_soap_enveloped_saml_thingy', 'soap.parse_soap_enveloped_saml_logout_request',
+OTHER_NAMES = ['decrypted EncryptedID content', 'extension_element_from_string', 'soap.parse_soap_enveloped_saml_thingy', 'soap.parse_soap_enveloped_saml_logout_request',
                'soap.parse_soap_enveloped_saml_authn_response', 'soap.open_soap_envelope', 'soap.class_instances_from_soap_enveloped_saml_thingies',
                'pack.parse_soap_enveloped_saml', 'Entity.unravel[SOAP request]', 'Entity.unravel[SOAP response]', 'InMemoryMetaData.parse', 'MetadataStore.load[inline]',
                'MetadataStore.load[local]', 'Saml2Client.parse_authn_request_response[POST]', 'Saml2Client.parse_authn_request_response[Redirect]',
